@@ -166,6 +166,31 @@ pub fn run_case(bytes: &[u8], pws: &[Vec<u8>]) -> (Tally, u64) {
                     }
                     Err(e) => t.add("by_index", err_class(&e)),
                 });
+                // the std conveniences a caller may use instead of a read loop (an implementation may override them)
+                t.guard("by_index.read_to_end", |t| match ar.by_index(i) {
+                    Ok(mut f) => {
+                        let mut v = Vec::new();
+                        let c = if f.read_to_end(&mut v).is_ok() { "ok" } else { "err" };
+                        t.add("by_index.read_to_end", c);
+                    }
+                    Err(e) => t.add("by_index", err_class(&e)),
+                });
+                t.guard("by_index_raw.read_to_end", |t| match ar.by_index_raw(i) {
+                    Ok(mut f) => {
+                        let mut v = Vec::new();
+                        let c = if f.read_to_end(&mut v).is_ok() { "ok" } else { "err" };
+                        t.add("by_index_raw.read_to_end", c);
+                    }
+                    Err(e) => t.add("by_index_raw", err_class(&e)),
+                });
+                t.guard("by_index.read_to_string", |t| match ar.by_index(i) {
+                    Ok(mut f) => {
+                        let mut v = String::new();
+                        let c = if f.read_to_string(&mut v).is_ok() { "ok" } else { "err" };
+                        t.add("by_index.read_to_string", c);
+                    }
+                    Err(e) => t.add("by_index", err_class(&e)),
+                });
                 t.guard("by_index_raw", |t| match ar.by_index_raw(i) {
                     Ok(mut f) => {
                         let _ = accessors(&f);
